@@ -50,7 +50,10 @@ fn with_env(lam_cnt: usize, env: Env, term: Term<NamedDeBruijn>) -> Term<NamedDe
             if lam_cnt >= index {
                 Term::Var(name)
             } else {
-                env.get::<usize>(env.len() - (index - lam_cnt))
+                // A free variable (index beyond the environment) is left as is.
+                env.len()
+                    .checked_sub(index - lam_cnt)
+                    .and_then(|position| env.get::<usize>(position))
                     .cloned()
                     .map_or(Term::Var(name), value_as_term)
             }
@@ -86,6 +89,20 @@ fn with_env(lam_cnt: usize, env: Env, term: Term<NamedDeBruijn>) -> Term<NamedDe
 
             Term::Force(force.into())
         }
-        rest => rest,
+        Term::Constr { tag, fields } => Term::Constr {
+            tag,
+            fields: fields
+                .into_iter()
+                .map(|field| with_env(lam_cnt, env.clone(), field))
+                .collect(),
+        },
+        Term::Case { constr, branches } => Term::Case {
+            constr: with_env(lam_cnt, env.clone(), constr.as_ref().clone()).into(),
+            branches: branches
+                .into_iter()
+                .map(|branch| with_env(lam_cnt, env.clone(), branch))
+                .collect(),
+        },
+        rest @ (Term::Constant(_) | Term::Builtin(_) | Term::Error) => rest,
     }
 }
